@@ -11,6 +11,7 @@ import (
 	"io"
 	"sort"
 	"sync"
+	"time"
 
 	sm "github.com/lni/dragonboat/v4/statemachine"
 )
@@ -35,6 +36,7 @@ type recorder struct {
 	applies []applyRec
 	live    map[uint64]*kvSM // replica -> current incarnation
 	bad     []string         // state machine level anomalies (malformed cmd, ...)
+	slow    map[uint64]time.Duration // replica -> dwell of a slow Update (about one in three)
 }
 
 func newRecorder() *recorder { return &recorder{live: map[uint64]*kvSM{}} }
@@ -67,7 +69,18 @@ func encodeCmd(id, key, val uint64) []byte {
 	return b
 }
 
+// dwell makes applying an entry take a while on a slow replica: the entry is
+// committed (and possibly completed through another replica) but not yet in this
+// replica's state; a linearizable read served here has to wait for it.
+func (s *kvSM) dwell(index uint64) {
+	d := s.rec.slow[s.replica]
+	if d > 0 && (index*0x9E3779B97F4A7C15>>40)%3 == 0 {
+		time.Sleep(d)
+	}
+}
+
 func (s *kvSM) Update(e sm.Entry) (sm.Result, error) {
+	s.dwell(e.Index)
 	if len(e.Cmd) != 24 {
 		s.rec.mu.Lock()
 		s.rec.bad = append(s.rec.bad, "update with malformed cmd")
@@ -176,3 +189,47 @@ func (s *kvSM) state() (uint64, [][3]uint64) {
 	sort.Slice(out, func(i, j int) bool { return out[i][0] < out[j][0] })
 	return s.count, out
 }
+
+
+// kvCSM is the same register map as a concurrent state machine: dragonboat does
+// not serialise Lookup with Update, a read index released before the entries it
+// covers are applied is served from the old state.
+type kvCSM struct{ *kvSM }
+
+func (r *recorder) concurrentFactory() sm.CreateConcurrentStateMachineFunc {
+	return func(shardID uint64, replicaID uint64) sm.IConcurrentStateMachine {
+		s := &kvSM{rec: r, replica: replicaID, m: map[uint64]cell{}}
+		r.mu.Lock()
+		r.live[replicaID] = s
+		r.mu.Unlock()
+		return kvCSM{s}
+	}
+}
+
+func (c kvCSM) Update(ents []sm.Entry) ([]sm.Entry, error) {
+	for i := range ents {
+		res, err := c.kvSM.Update(ents[i])
+		if err != nil {
+			return nil, err
+		}
+		ents[i].Result = res
+	}
+	return ents, nil
+}
+
+func (c kvCSM) PrepareSnapshot() (interface{}, error) {
+	var b sliceWriter
+	if err := c.kvSM.SaveSnapshot(&b, nil, nil); err != nil {
+		return nil, err
+	}
+	return []byte(b), nil
+}
+
+func (c kvCSM) SaveSnapshot(ctx interface{}, w io.Writer, _ sm.ISnapshotFileCollection, _ <-chan struct{}) error {
+	_, err := w.Write(ctx.([]byte))
+	return err
+}
+
+type sliceWriter []byte
+
+func (b *sliceWriter) Write(p []byte) (int, error) { *b = append(*b, p...); return len(p), nil }
